@@ -7,6 +7,7 @@ import (
 	"os/exec"
 	"path/filepath"
 	"regexp"
+	"path"
 	"sort"
 	"strconv"
 	"strings"
@@ -44,6 +45,13 @@ type c17Line struct {
 	Op     string     `json:"op,omitempty"` // = += ?= := !=
 	Val    []c17Chunk `json:"val,omitempty"`
 	Raw    string     `json:"raw,omitempty"` // text of a line that is not an assignment
+	// Path: the file name the line carries (mkline.Filename()); "" = c17FileNames[File].
+	// In a path-labelled ("spelled") program File is the file the path DENOTES
+	// (0 Makefile, 1 inc.mk, 2 inc2.mk), Path is how it is spelled.
+	Path string `json:"path,omitempty"`
+	// Cond: the line is inside a conditional section (.if 1 ... .endif), i.e.
+	// Indentation.IsConditional() is true when RedundantScope sees it
+	Cond bool `json:"cond,omitempty"`
 }
 
 type c17Prog []c17Line
@@ -98,8 +106,15 @@ func (l c17Line) uses(v string) bool {
 }
 
 func (l c17Line) word() string {
+	file := strconv.Itoa(l.File)
+	if l.Path != "" {
+		file = "P" + hx(l.Path)
+	}
+	if l.Cond {
+		file = "C" + file
+	}
 	if !l.Assign {
-		return fmt.Sprintf("%d:%d:x", l.File, l.Lineno)
+		return fmt.Sprintf("%s:%d:x", file, l.Lineno)
 	}
 	cs := "-"
 	if len(l.Val) > 0 {
@@ -117,7 +132,7 @@ func (l c17Line) word() string {
 		}
 		cs = strings.Join(parts, ",")
 	}
-	return fmt.Sprintf("%d:%d:%s:%s:%s", l.File, l.Lineno, c17OpLetter[l.Op], hx(l.Var), cs)
+	return fmt.Sprintf("%s:%d:%s:%s:%s", file, l.Lineno, c17OpLetter[l.Op], hx(l.Var), cs)
 }
 
 func (p c17Prog) words() string {
@@ -132,7 +147,12 @@ func (p c17Prog) String() string {
 	ts := make([]string, len(p))
 	for i, l := range p {
 		t := strings.ReplaceAll(l.Text(), "\t", " ")
-		if l.File == 1 {
+		if l.Cond {
+			t = "[cond] " + t
+		}
+		if l.Path != "" {
+			t = fmt.Sprintf("[%s:%d] %s", l.Path, l.Lineno, t)
+		} else if l.File == 1 {
 			t = "[inc] " + t
 		}
 		ts[i] = t
@@ -141,6 +161,30 @@ func (p c17Prog) String() string {
 }
 
 func (p c17Prog) fuel() int { return len(p) + 2 }
+
+// spelled: the lines carry path names (oracle requests chkp/sndp instead of chk/snd)
+func (p c17Prog) spelled() bool {
+	for _, l := range p {
+		if l.Path != "" {
+			return true
+		}
+	}
+	return false
+}
+
+func (p c17Prog) req(cmd string) string {
+	if p.spelled() {
+		return cmd + "p"
+	}
+	if cmd == "chk" {
+		for _, l := range p {
+			if l.Cond {
+				return "chkc"
+			}
+		}
+	}
+	return cmd
+}
 
 func (p c17Prog) nAssign() int {
 	n := 0
@@ -251,12 +295,29 @@ type c17Impl struct {
 func c17RunShim(p c17Prog) c17Impl {
 	lines := make([]pkglint.VerifC17Line, len(p))
 	for i, l := range p {
-		lines[i] = pkglint.VerifC17Line{File: c17FileNames[l.File], Lineno: l.Lineno, Text: l.Text()}
+		name := l.Path
+		if name == "" {
+			name = c17FileNames[l.File]
+		}
+		lines[i] = pkglint.VerifC17Line{File: name, Lineno: l.Lineno, Text: l.Text()}
 	}
+	spelled := p.spelled()
 	out, pan := pkglint.VerifC17Redundant(lines)
 	var r c17Impl
 	r.panicked = pan
 	r.verdicts, r.other = c17ParseDiags(p, out, func(name string) int {
+		if spelled {
+			// by what the path denotes; line numbers are unique per denoted file
+			switch path.Base(name) {
+			case "Makefile":
+				return 0
+			case "inc.mk":
+				return 1
+			case "inc2.mk":
+				return 2
+			}
+			return -1
+		}
 		switch name {
 		case "main.mk":
 			return 0
@@ -430,7 +491,7 @@ func c17Replay(c c17Case, extra map[string]any) map[string]any {
 func c17Judge(ctx *Ctx, res *Result, cases []c17Case, layer string) {
 	reqs := make([]string, len(cases))
 	for i, c := range cases {
-		reqs[i] = fmt.Sprintf("chk %d %s", c.prog.fuel(), c.prog.words())
+		reqs[i] = fmt.Sprintf("%s %d %s", c.prog.req("chk"), c.prog.fuel(), c.prog.words())
 	}
 	ans, err := runOracle(ctx, "c17", reqs)
 	if err != nil {
@@ -480,7 +541,7 @@ func c17Judge(ctx *Ctx, res *Result, cases []c17Case, layer string) {
 			}
 			if !known {
 				second = append(second, pending{i, v})
-				secondReqs = append(secondReqs, fmt.Sprintf("snd %d %d %s", c.prog.fuel(), v.Flagged, c.prog.words()))
+				secondReqs = append(secondReqs, fmt.Sprintf("%s %d %d %s", c.prog.req("snd"), c.prog.fuel(), v.Flagged, c.prog.words()))
 			}
 		}
 	}
@@ -886,6 +947,28 @@ func c17UnitShard(ctx *Ctx, res *Result, spec c17ShardSpec) {
 			src = "random-shifted-linenos"
 		}
 		add(p, src, true)
+	}
+	flush()
+	// path-labelled programs: the same files under different spellings
+	nsp := 1500
+	if ctx.Tier == "thorough" {
+		nsp = 15000
+	}
+	var sps []c17Prog
+	for i := 0; i < nsp; i++ {
+		p := c17RandomSpelledProgram(rng)
+		sps = append(sps, p)
+		add(p, "spelled", true)
+	}
+	flush()
+	c17SpelledExtra(ctx, res, sps)
+	// programs with conditional sections
+	ncond := 3000
+	if ctx.Tier == "thorough" {
+		ncond = 30000
+	}
+	for i := 0; i < ncond; i++ {
+		add(c17RandomCondProgram(rng, res), "conditional", true)
 	}
 	flush()
 }
@@ -1348,6 +1431,11 @@ func c17CrossCheck(ctx *Ctx, res *Result) {
 		fmt.Fprintf(&sb, "Goal map (guard p%d) [%s] = [%s]. Proof. vm_compute. reflexivity. Qed.\n",
 			i, strings.Join(vs, "; "), strings.Join(grd, "; "))
 	}
+	sb.WriteString("From PV Require Import Model.RedundantPaths Model.RedundantCond Spec.PathDenote Spec.SpellingIndep.\n")
+	nsp := c17CrossCheckSpelled(ctx, res, &sb)
+	if res.Broken != "" {
+		return
+	}
 	dir := filepath.Join(ctx.Work, "crosscheck")
 	os.MkdirAll(dir, 0o755)
 	file := filepath.Join(dir, "c17cases.v")
@@ -1372,6 +1460,7 @@ func c17CrossCheck(ctx *Ctx, res *Result) {
 		return
 	}
 	res.Count("crosschecked_by_vm_compute", len(progs))
+	res.Count("crosschecked_spelled_goals", nsp)
 }
 
 // ---------- entry points ----------
@@ -1417,13 +1506,22 @@ func runC17(ctx *Ctx) *Result {
 		"pkgtree_verdicts_on_fragment_lines": 50, "pkgtree_verdicts_expected": 150, "pkgtree_fragment_analysed_alone": 3,
 		"pkgtree_spelling_plain": 5, "pkgtree_spelling_dot-slash": 5, "pkgtree_spelling_canonical": 10,
 		"pkgtree_spelling_curdir": 5, "pkgtree_spelling_sibling": 5,
+		"pkgtree_spelling_detour-sibling": 5, "pkgtree_spelling_detour-updown": 5, "pkgtree_spelling_curdir-detour": 5,
+		"programs_spelled": 10000, "spelled_one_spelling": 5000, "spelled_one_spelling_non_canonical": 4000,
+		"spelled_one_spelling_non_canonical_with_verdicts": 1000, "spelled_file_spelled_in_two_ways": 500,
+		"crosschecked_spelled_goals": 75,
+		"programs_conditional": 20000, "cond_lines_conditional_assignments": 20000, "cond_programs_with_later_plain_write": 5000,
 		"pkgtree_frag_own": 20, "pkgtree_frag_other": 10, "pkgtree_frag_shared": 10,
 	}
 	for _, k := range sortedKeys(floors) {
 		n, _ := res.Distribution[k].(int)
 		if n < floors[k] {
-			res.Broken = fmt.Sprintf("coverage floor missed: %s = %d < %d", k, n, floors[k])
-			return res
+			// the floors are computed from what the generators and the MODEL predict;
+			// missing one on a changed implementation is a broken correspondence
+			res.AddViolation(Violation{Key: "C17/coverage-floor/" + k,
+				What:       fmt.Sprintf("coverage floor missed: %s = %d < %d", k, n, floors[k]),
+				FoundInput: false, Size: 100000,
+				Replay: map[string]any{"broken": "coverage floor " + k}})
 		}
 	}
 	return res
@@ -1460,6 +1558,9 @@ func replayC17(ctx *Ctx, rep map[string]any) *Result {
 			return res
 		}
 	} else {
+		if layer == "spelled" || p.spelled() {
+			c17SpelledExtra(ctx, res, []c17Prog{p})
+		}
 		layer = "shim"
 		c.impl = c17RunShim(p)
 	}
